@@ -99,6 +99,53 @@ def make_pairs(tier, rng):
     return pairs
 
 
+def run_explored(ctx, tier, rng):
+    """HGSteps.tla: for small signal programs TLC takes EVERY combination of gate decisions (within a
+    budget) and injected failures, with the signal monitor as an invariant of every reachable state; each
+    terminal behaviour is replayed on the real runners (producer/waiter projections included)."""
+    from .. import steps
+    thorough = tier == "thorough"
+    jobs = []
+    for prog, prov, tag in templates(rng, thorough):
+        if tag.startswith("loop/") and int(tag.rsplit("N", 1)[1]) != 2:
+            continue
+        jobs.append((copy.deepcopy(prog), prov, "tpl/" + tag))
+    want = 60 if thorough else 16
+    tries = 0
+    while want > 0 and tries < 20000:
+        tries += 1
+        prog, prov = gen.random_flat(rng, gate=0.7, cyclic=0.4, n_nodes=(2, 4), defaults=0.1, bound=0.0, emit=0.9)
+        if not any(n["wait_for"] for n in prog["nodes"]) or not any(n["kind"] in ("route", "ifelse") for n in prog["nodes"]):
+            continue
+        o, _, _ = predict.try_real(gen.job(0, prog, prov, mode="sync"))
+        if "rejected" in o:
+            continue
+        jobs.append((prog, prov, "random"))
+        want -= 1
+    sjobs = []
+    for prog, prov, tag in jobs:
+        prog["max_iter"] = min(prog["max_iter"], 8)
+        for n in prog["nodes"]:
+            if n["kind"] == "func" and rng.random() < (0.3 if thorough else 0.15):
+                n["mayfail"] = True
+        j = gen.job(len(sjobs) + 1, prog, prov, mode=rng.choice(["sync", "async"]))
+        j["dbudget"] = 4 if thorough else 3
+        j["fbudget"] = 1
+        j["_tag"] = tag
+        sjobs.append(j)
+    behs, stats = steps.explore([{k: v for k, v in j.items() if not k.startswith("_")} for j in sjobs])
+    ctx.add_tlc(stats)
+
+    def extra(ctx, job, m, o, wit):
+        for p, w in waiter_pairs(job["prog"]):
+            pm, po = predict.projection(m["calls"], p, w), predict.projection(o["calls"], p, w)
+            if pm != po:
+                ctx.violation("explored:producer-waiter-order", wit, f"({p},{w}) projection {po}, explored behaviour {pm}")
+                return
+    n = steps.replay_explored(ctx, sjobs, behs, extra=extra)
+    ctx.bump("tlc_explored_behaviours_replayed", n)
+
+
 def selftest(ctx, pairs):
     """Move a waiter's start in front of its producer in a recorded log: TLC must reject it."""
     for j, tag in pairs:
@@ -123,11 +170,12 @@ def run(tier, seed):
     for j, _ in pairs:
         ctx.distinct(IR.struct_hash([j["prog"], j["provided"], j["mode"]]))
     res, reals = enginecheck.evaluate(ctx, pairs, PID, compare, trace_prop=PID, min_accepted=len(pairs) // 2)
+    run_explored(ctx, tier, rng)
     mid = pairs[len(pairs) // 2][0]
     ctx.sample({"job": mid, "observed_calls": [c["path"] for c in reals[mid["id"]].get("calls", [])]})
     ctx.assumptions += ["a production is a completed invocation of a node that lists the awaited name among its outputs",
                         "safety half: TLC monitor on model runs (invariant) and on recorded real call logs (TraceL1); liveness half: waiter invocation counts and (producer, waiter) order projections equal the engine model's, loop templates as in C04"]
-    return ctx.finish(rule="signal templates (producer/waiter in either list order, signal or data name, 1-2 waiters, emitting gate, documented chat loop with 0..4 iterations) on both runners + seeded random programs with emit/wait_for pairs, gates and cycles; distinct = structural hash of (program, provided, runner)")
+    return ctx.finish(rule="signal templates (producer/waiter in either list order, signal or data name, 1-2 waiters, emitting gate, documented chat loop with 0..4 iterations) on both runners + seeded random programs with emit/wait_for pairs, gates and cycles; HGSteps: every gate-decision / failure combination of small signal programs explored by TLC with the monitor as invariant, every terminal behaviour replayed; distinct = structural hash of (program, provided, runner)")
 
 
 def replay(path):
